@@ -6,7 +6,7 @@ import conc
 import driver
 
 PROPERTIES_FILE = "Properties/Properties_C05_sync.v"
-COQ_DEPS = ["Proofs/SyncWait_proofs.vo", "Proofs/SyncEdges_proofs.vo"]
+COQ_DEPS = ["Proofs/SyncWait_proofs.vo", "Proofs/SyncEdges_proofs.vo", "Proofs/SyncWait_example.vo"]
 GEN_MODULES = ["Gen_dqstate", "Gen_lanesites", "Gen_once", "Gen_group", "Gen_sema"]
 LEVEL = "proof"
 TRUSTED = [
@@ -98,19 +98,33 @@ def analyse(text, label):
 
 
 def branch_stats(traces, dist):
+    """how often each branch of the model was exercised (no source line numbers involved)"""
     def inc(k, n=1):
         dist[k] = dist.get(k, 0) + n
     for _, tr, _ in traces:
+        incall = 0
         for i, e in enumerate(tr):
-            nx = tr[i + 1] if i + 1 < len(tr) else None
+            pv = tr[i - 1] if i > 0 else None
+            if e.kind == 100:
+                incall = e.obj
+            elif e.kind == 101:
+                if incall == 3 and pv is not None and pv.kind == 1 and pv.obj != 0:
+                    inc("async_and_wait_returned_after_remote_run")
+                incall = 0
             if e.kind == 5 and e.obj == 0 and not (e.ok & 1):
-                inc("cas_failures")
-            if e.kind == 5 and e.order == 2 and (e.ok & 1) and e.line == 1336:
-                inc("fast_path_acquired")
+                inc("cas_failures_on_dq_state")
+            if e.kind == 5 and e.obj == 0 and e.order == 2 and (e.ok & 1):
+                inc("fast_path_acquired" if incall else "worker_lock_attempts_committed")
             if e.kind == 7 and e.obj != 0:
                 inc("wait_dec_saw_signal" if e.a == 1 else "wait_dec_before_signal")
             if e.kind == 6 and e.obj != 0:
                 inc("signal_before_wait" if e.a == 0 else "signal_after_wait_needs_futex_wake")
+                if pv is not None and pv.kind == 5 and pv.obj == 0 and (pv.ok & 1):
+                    inc("lock_transfers_by_worker" if not incall else "lock_transfers_by_sync_caller")
+                    if e.obj == (e.tid & 0x3fffffff):
+                        inc("waiter_took_lock_and_handed_it_to_itself")
+                elif pv is not None and pv.kind == 103:
+                    inc("remote_run_signals")
             if e.kind == 32:
                 inc("futex_waits")
             if e.kind == 33 and e.b != 0:
@@ -119,12 +133,11 @@ def branch_stats(traces, dist):
                 inc("dirty_xor_retries")
             if e.kind == 4 and e.obj == 0 and e.off == 8:
                 inc("pop_tail_cas_ok" if (e.ok & 1) else "pop_tail_cas_lost_to_enqueuer")
-            if e.kind == 5 and e.obj == 0 and e.line == 1314 and (e.ok & 1):
-                inc("lock_transfers")
-            if e.kind == 101 and i > 0 and tr[i - 1].kind == 1 and tr[i - 1].obj != 0:
-                inc("async_and_wait_returned_after_remote_run")
             if e.kind == 1 and e.obj == 0 and e.off == 16 and e.a == 0:
                 inc("head_not_yet_linked_spins")
+            if e.kind == 5 and e.obj == 0 and e.order == 3 and (e.ok & 1) and incall in (1, 2, 3) and pv is not None \
+                    and pv.kind == 1 and pv.obj == 0 and i >= 2 and tr[i - 2].kind == 103:
+                inc("inline_unlock_after_fast_path")
 
 
 PLANS = {   # (calls, permille, clients, feeders, mix)
